@@ -1,4 +1,5 @@
 import Stackage.Driver.Hist
+import Stackage.Driver.Equal
 
 /-! Correspondence driver: case lines on stdin, `<id> M <model>` and `<id> S <spec>` lines on stdout. -/
 
@@ -6,6 +7,7 @@ open Stackage.Driver
 
 def dispatch (stream payload : String) : String × String × String :=
   if ["hist", "histx", "capx", "nest", "pol", "xfer"].contains stream then runHist payload
+  else if stream == "eqpair" then runEq false payload else if stream == "equnit" then runEq true payload
   else ("NOSTREAM", "NOSTREAM", "")
 
 partial def loop (h : IO.FS.Stream) (out : IO.FS.Stream) : IO Unit := do
